@@ -65,6 +65,7 @@ def run(ctx):
     from fast_ticc.containers import arguments, model_state
     rng = np.random.default_rng(ctx.seed)
     ctx.proof_layer(allowed_axioms=core.R_AX, coq_deps=["Corr/RunStats"])
+    core.note_drift(ctx, ANCHORS)
     cov = core.LineCoverage()
     lits, meta = [], []
     with cov:
